@@ -133,7 +133,7 @@ func runChannels(a *Analyzer, r *Results) {
 					continue
 				}
 				// the timer goroutine's own send (into the unbuffered election channel) is governed by Z6
-				if strings.Contains(funcID(op.fn), "electiontrigger") || op.fn.Signature.Recv() == nil {
+				if funcPkgPath(op.fn) != modPath || op.fn.Parent() != nil {
 					continue
 				}
 				if op.fn.Name() == "UpdateState" {
